@@ -19,8 +19,9 @@
 (*  Item ...                       like Enc: an inner pack or record that  *)
 (*        is then given to a container                                     *)
 (*  Build kind items id status0 minsize plainlen status gz same            *)
-(*  Unpack out                     inner packs / records the decoded       *)
-(*        container returned: tuple of [type, r]                           *)
+(*  Unpack out | outs outi         inner packs / records the decoded       *)
+(*        container returned: tuple of [type, r] (long lists: the distinct *)
+(*        [type, r] and the index of the one at each position)             *)
 (*  Top  type top                  union over the run of the top-level     *)
 (*        fields carried by the real writer of `type`                      *)
 (*  End  n                         n = number of Create+Dec+Unpack events  *)
@@ -96,9 +97,14 @@ TraceBuild ==
               plainlen |-> e.plainlen, status |-> e.status, gz |-> e.gz, same |-> e.same])
   /\ cnt' = cnt
 
+\* a long list is logged in a compact form: the distinct [type, r] once (outs)
+\* and, per position, which of them was returned (outi)
 TraceUnpack ==
   /\ Step("Unpack")
-  /\ Unpack(Trace[l].out)
+  /\ LET e == Trace[l] IN
+       IF Has(e, "outi")
+       THEN UnpackC(e.outs, e.outi)
+       ELSE Unpack(e.out)
   /\ cnt' = cnt + 1
 
 TraceTop ==
